@@ -1,6 +1,8 @@
 package main
 
 import (
+	"strings"
+	"sync/atomic"
 	"encoding/json"
 	"fmt"
 	"math/rand"
@@ -59,7 +61,8 @@ func smpMsgs(seed int64, long bool) map[string]string {
 	rng := rand.New(rand.NewSource(seed))
 	base := fmt.Sprintf("msg-%d-", rng.Intn(1000))
 	if long {
-		base = fmt.Sprintf("request failed: upstream %d returned an unexpected status while fetching the resource, retrying with backoff; attempt=", rng.Intn(1000))
+		// far longer than any plausible "hash only the first N bytes" shortcut
+		base = fmt.Sprintf("request failed: upstream %d returned an unexpected status while fetching the resource, retrying with backoff; %sattempt=", rng.Intn(1000), strings.Repeat("trace-context-padding ", 40))
 	}
 	a := base + "a"
 	ba := fnv32a(a) % 4096
@@ -585,4 +588,65 @@ func smpStress(c *Ctx, msgs map[string]string) {
 		c.Add("traces_validated_against_impl", 1)
 	}
 	c.Set("open_window_stress_runs", int64(runs))
+	// heavy contention on one counter: many entries per goroutine through a core that does nothing but count,
+	// so that goroutines really meet inside the counter (the observer's mutex above serialises them)
+	heavy := c.Pick(8, 60)
+	for r := 0; r < heavy && !c.Saturated(); r++ {
+		p := smpParams{N: rng.Intn(3), M: 1 + rng.Intn(3)}
+		cnt := &smpCountCore{}
+		var hs, hd int64
+		core := zapcore.NewSamplerWithOptions(cnt, time.Hour, p.N, p.M, zapcore.SamplerHook(func(e zapcore.Entry, d zapcore.SamplingDecision) {
+			if d == zapcore.LogSampled {
+				atomic.AddInt64(&hs, 1)
+			} else {
+				atomic.AddInt64(&hd, 1)
+			}
+		}))
+		t0 := time.Unix(0, smpBase)
+		if ce := core.Check(zapcore.Entry{Level: zapcore.InfoLevel, Message: msgs["a"], Time: t0}, nil); ce != nil {
+			ce.Write()
+		}
+		G, E := 8, 20000
+		var wg sync.WaitGroup
+		for gi := 0; gi < G; gi++ {
+			wg.Add(1)
+			go func(gi int) {
+				defer wg.Done()
+				ent := zapcore.Entry{Level: zapcore.InfoLevel, Message: msgs["a"], Time: t0.Add(time.Millisecond)}
+				for k := 0; k < E; k++ {
+					if ce := core.Check(ent, nil); ce != nil {
+						ce.Write()
+					}
+				}
+			}(gi)
+		}
+		wg.Wait()
+		total := G*E + 1
+		want := 0
+		for x := 1; x <= total; x++ {
+			if x <= p.N || (p.M > 0 && (x-p.N)%p.M == 0) {
+				want++
+			}
+		}
+		got := int(atomic.LoadInt64(&cnt.n))
+		if got != want {
+			c.Violation("C11/open-window-count", fmt.Sprintf("free-running under contention: N=%d M=%d, %d goroutines x %d entries of one key inside one open window: %d admitted, exact count is %d", p.N, p.M, G, E, got, want), map[string]interface{}{"mode": "stress-heavy"})
+		}
+		if int(hs) != got || int(hs+hd) != total {
+			c.Violation("C11/hook-count", fmt.Sprintf("free-running under contention: %d entries, %d forwarded, hook calls sampled=%d dropped=%d", total, got, hs, hd), map[string]interface{}{"mode": "stress-heavy"})
+		}
+		c.Add("traces_validated_against_impl", 1)
+	}
+	c.Set("open_window_contention_runs", int64(heavy))
 }
+
+// smpCountCore accepts everything and only counts the entries written to it.
+type smpCountCore struct{ n int64 }
+
+func (c *smpCountCore) Enabled(zapcore.Level) bool          { return true }
+func (c *smpCountCore) With([]zapcore.Field) zapcore.Core   { return c }
+func (c *smpCountCore) Check(e zapcore.Entry, ce *zapcore.CheckedEntry) *zapcore.CheckedEntry {
+	return ce.AddCore(e, c)
+}
+func (c *smpCountCore) Write(zapcore.Entry, []zapcore.Field) error { atomic.AddInt64(&c.n, 1); return nil }
+func (c *smpCountCore) Sync() error                               { return nil }
